@@ -147,6 +147,9 @@ class Gen:
         reps = 1
         if (mx == -1 or mx > 1) and r.random() < .3:
             reps = r.randint(2, 3)
+            if mx == -1 and r.random() < .08:
+                self.note('rep-many')
+                reps = r.randint(10, 12)        # ten repetitions and more: anything that orders repetitions as strings shows here
         elif overflow and r.random() < .05:
             self.note('rep-overflow')
             reps = 2
@@ -273,6 +276,8 @@ class MsgGen(Gen):
                 n = mn if r.random() < .5 else max(mn, 1)
                 if (mx == -1 or mx > 1) and r.random() < .35 and depth < maxdepth:
                     n = max(n, 1) + r.randint(1, 2)
+                    if mx == -1 and depth <= 1 and r.random() < .06:
+                        n = 11                      # eleven repetitions of one segment / group at the top levels
             if cls == 'GRP' and depth >= maxdepth and mn == 0:
                 n = 0
             for _ in range(n):
